@@ -4,7 +4,7 @@ import numpy
 import z3
 from vf import core, smt, symnp
 from vf.symnp import Sc
-from contracts.nonshear_env import patched, class_attr
+from contracts.nonshear_env import patched, duck_of, class_attr
 from contracts import calc_env
 
 LEVEL = "other"
@@ -175,7 +175,7 @@ def run(s):
             D = numpy.array([Sc(z3.Real("D_%d" % j)) for j in range(npr)], dtype=object)
 
             def thunk():
-                me = types.SimpleNamespace(p_tv_gpa=P, desired_pressures_gpa=D, settings={"DELTA_P": 1.0})
+                me = duck_of(qa.QHACalculator, p_tv_gpa=P, desired_pressures_gpa=D, settings={"DELTA_P": 1.0})
                 with patched(qa, int=lambda x: 0, logger=types.SimpleNamespace(info=lambda *a, **k: None, error=lambda *a, **k: None)):
                     try:
                         qa.QHACalculator.desired_pressure_status(me)
@@ -250,7 +250,7 @@ def native_rejection(qa):
     for P, D, want in ((numpy.array([[0.0, 50.0], [5.0, 40.0]]), numpy.array([0.0, 45.0]), "raise"),
                        (numpy.array([[0.0, 50.0], [5.0, 40.0]]), numpy.array([0.0, 39.0]), "return"),
                        (numpy.array([[0.0, 40.0], [5.0, 50.0]]), numpy.array([0.0, 45.0]), "raise")):
-        me = types.SimpleNamespace(p_tv_gpa=P, desired_pressures_gpa=D, settings={"DELTA_P": 1.0})
+        me = duck_of(qa.QHACalculator, p_tv_gpa=P, desired_pressures_gpa=D, settings={"DELTA_P": 1.0})
         try:
             with patched(qa, logger=types.SimpleNamespace(info=lambda *a, **k: None, error=lambda *a, **k: None)):
                 qa.QHACalculator.desired_pressure_status(me)
